@@ -60,7 +60,6 @@ pub mod trusted_axioms {
     }
 }
 
-broadcast use trusted_axioms::axiom_str_len_fits;
 
 /// stand-in for std::io::Read + byteorder::ReadBytesExt over an abstract byte source `rest()`.
 /// `eof_only()`: the source fails only when it runs out of data (no transient I/O errors).
@@ -114,6 +113,8 @@ pub assume_specification [<String as PartialEq<str>>::eq] (a: &String, b: &str) 
     ensures
         r == (a@ == b@);
 
+
+broadcast use {trusted_axioms::axiom_str_len_fits};
 
 // ===== spec: spec.rs =====
 // The binary format, written down once from default_protocol_definitions.rs and the property
